@@ -151,3 +151,51 @@ func (g *G) in(gen string) { g.gen = gen }
 func (g *G) emit(op string, args ...string) {
 	g.Cases = append(g.Cases, Case{Op: op, Args: args, Gen: g.gen})
 }
+
+// privateResultFails — a byte-slice result of a package-level encoder/decoder belongs to the caller: keeping it
+// across a later call (with other arguments), or writing into it (its contents and the spare capacity an append
+// would use) and calling again with the same arguments, must change nothing. (History clause of the encode/decode
+// properties: "decode(encode x) = x" is about the value the caller holds, not only about the moment it is returned.)
+func privateResultFails(prop, name string, call func() []byte, other func()) []Fail {
+	var fails []Fail
+	r1 := call()
+	if r1 == nil {
+		return nil
+	}
+	snap := append([]byte{}, r1...)
+	other()
+	if !bytesEqual(r1, snap) {
+		fails = append(fails, fail(prop, "history:result-overwritten-by-later-call:"+name, "the %d bytes %s returned changed when the function was called again with other arguments", len(snap), name))
+		return fails
+	}
+	for i := range r1 {
+		r1[i] ^= 0xFF
+	}
+	spare := r1[len(r1):cap(r1)]
+	for i := range spare {
+		spare[i] ^= 0xA5
+	}
+	r2 := call()
+	if !bytesEqual(r2, snap) {
+		fails = append(fails, fail(prop, "history:result-aliases-shared-state:"+name, "%s returns different bytes after the caller wrote into (or appended to) its earlier result", name))
+	}
+	for i := range spare { // leave shared state, if any, as it was
+		spare[i] ^= 0xA5
+	}
+	for i := range r1 {
+		r1[i] ^= 0xFF
+	}
+	return fails
+}
+
+func bytesEqual(a, b []byte) bool {
+	if len(a) != len(b) {
+		return false
+	}
+	for i := range a {
+		if a[i] != b[i] {
+			return false
+		}
+	}
+	return true
+}
